@@ -4,26 +4,28 @@ FUNCS = ["boxworks::ds::HBox::pack", "boxworks::FontRepo::width_height_depth (de
 
 def A(name, bound, tier="quick", timeout=900):
     return dict(engine="A", module="c15_hpack", name=name, features=F, tier=tier, timeout=timeout, funcs=FUNCS, bound=bound,
-                assumes=["every amount |v| < 2^26 so that the running sums of <= 4 items stay inside i32 (TeX's own validity condition)",
+                assumes=["every amount |v| < 2^26 so that the running sums of <= 6 items stay inside i32 (TeX's own validity condition)",
                          "the font repository answers arbitrarily (symbolic Option<[w,h,d]>) for the one character used"])
 
 
 PROP = {
-    "level_text": 'HBox::pack equals a transcription of TeX.2021.649-667 for every list of up to 3 (thorough: 4) items of the stated kinds with every amount symbolic; nothing is claimed for longer lists or the item kinds listed as outside.',
+    "level_text": 'HBox::pack equals a transcription of TeX.2021.649-667 for every list of up to 4 (thorough: 6) items of the stated kinds with every amount symbolic; nothing is claimed for longer lists or the item kinds listed as outside.',
     "title": "Packing a horizontal list produces TeX's box dimensions and glue setting",
     "explanation": (
         "HBox::pack is compared with a transcription of TeX.2021.649-667 that keeps one stretch and one shrink total per order "
         "of infinity. Item kinds, every amount, all 4x4 glue orders, the pack mode and target are solver variables. The glue "
         "ratio is compared as the integer pair (num, den) by cross-multiplication; the float-based PartialEq is not used."),
     "outside": [
-        "lists longer than 4 items; Mark/Insertion/Adjust/Math items (todo!() in the code), ligatures, discretionaries with content, leaders",
+        "lists longer than 4 (thorough: 6) items; Mark/Insertion/Adjust/Math items (todo!() in the code), whatsits, discretionaries with content, leaders",
         "over/underfull *reporting* (not implemented in the code)",
         "amounts of magnitude >= 2^26",
     ],
     "assumptions": [],
     "obligations": [
-        A("c15_hpack_2_items", "every list of 2 items from {glue, kern, rule, shifted hbox, penalty, char}"),
+        A("c15_hpack_2_items", "every list of 2 items from {glue, kern, rule, shifted hbox, shifted vbox, penalty, char, ligature, empty discretionary}"),
         A("c15_hpack_3_items", "every list of 3 items", timeout=1500),
-        A("c15_hpack_4_items", "every list of 4 items", tier="thorough", timeout=3600),
+        A("c15_hpack_4_items", "every list of 4 items", timeout=1500),
+        A("c15_hpack_5_items", "every list of 5 items", tier="thorough", timeout=2400),
+        A("c15_hpack_6_items", "every list of 6 items", tier="thorough", timeout=2400),
     ],
 }
